@@ -13,7 +13,7 @@ use crate::wr::{calls_from_tree, calls_json, run_calls, WCall, WRes};
 pub static DEF: PropDef = PropDef {
     id: "C19",
     level: "fault_enumeration",
-    rule: "each case: a valid call history H (random conformant tree, known/unknown/explicit-width masters, random Full collapsing; histories with a failing call are discarded) and one failure kind; the failing call(s) are inserted at EVERY position of H (quick: every position of histories up to 14 calls, else 8 random positions; thorough: every position) and H+ is run on a fresh writer to completion incl. into_inner(). Failure kinds: misplaced leaf / misplaced master Start / Utf8-Binary too long for the requested width / Full master too big for its width / unknown size on a leaf (both APIs) / malformed raw id / End of a master that is not innermost or with nothing open / Full containing an invalid child (misplaced element, stray End, raw child with a malformed id) at depth 1-3 after 0-k valid children / two or three failing calls in a row / End of a master whose content does not fit the explicit size width it was started with (the accepted Start and content are part of both histories). Oracle: inserted calls that return Ok are not failing calls (position is vacuous); otherwise every original call must return the same result kind as in H, into_inner() must end the same way, and the destination bytes must be identical. distinct = (failure kind, shadow-stack shape at the insertion point); non-trivial iff the shadow stack was non-empty at the insertion point.",
+    rule: "each case: a valid call history H (random conformant tree, known/unknown/explicit-width masters, random Full collapsing; histories with a failing call are discarded) and one failure kind; the failing call(s) are inserted at EVERY position of H (quick: every position of histories up to 14 calls, else 8 random positions; thorough: every position) and H+ is run on a fresh writer to completion incl. into_inner(). Failure kinds: misplaced leaf / misplaced master Start / Utf8-Binary too long for the requested width / Full master too big for its width / unknown size on a leaf (both APIs) / malformed raw id / End of a master that is not innermost or with nothing open / Full containing an invalid child (misplaced element, stray End, raw child with a malformed id, also behind a nested master given as a bare Start that is never closed) at depth 1-3 after 0-k valid children / two or three failing calls in a row / End of a master whose content does not fit the explicit size width it was started with (the accepted Start and content are part of both histories). Oracle: inserted calls that return Ok are not failing calls (position is vacuous); otherwise every original call must return the same result kind as in H, into_inner() must end the same way, and the destination bytes must be identical. distinct = (failure kind, shadow-stack shape at the insertion point); non-trivial iff the shadow stack was non-empty at the insertion point.",
     assumptions: &["I/O errors are outside the property and not injected here", "a candidate failing call that the writer accepts is not a C19 case (acceptance is C11's subject); such positions are counted as vacuous"],
     cases_quick: 80_000,
     cases_thorough: 500_000,
@@ -181,6 +181,30 @@ fn build_bad_full(rng: &mut Rng, spec: &Spec, e: &Elem, chain: &[u64], depth: us
         }
         let pick: &Elem = **rng.pick(&leaves);
         children.push(sample_value(rng, pick));
+    }
+    // now and then: a nested master given as a bare Start (never closed inside the Full) before the bad child
+    if rng.chance(1, 4) {
+        let subs: Vec<&&Elem> = allowed.iter().filter(|x| x.ty == Ty::Master && !x.is_global()).collect();
+        if !subs.is_empty() {
+            let sub = **rng.pick(&subs);
+            children.push(Item::Start(sub.id));
+            // what follows is judged under the nested master; a leaf allowed there keeps the prefix valid
+            let mut ch2 = ch.clone();
+            ch2.push(sub.id);
+            let leaves2: Vec<&Elem> = spec.allowed_under(&ch2).into_iter().filter(|x| x.ty != Ty::Master).collect();
+            if !leaves2.is_empty() && rng.chance(1, 2) {
+                let pick: &Elem = *rng.pick(&leaves2);
+                children.push(sample_value(rng, pick));
+            }
+            // the bad child: something not allowed under the nested master either
+            let bad: Vec<&Elem> = spec.elems.iter().filter(|x| x.ty != Ty::Master && !crate::spec::ref_path_match(&x.path, &ch2)).collect();
+            if bad.is_empty() {
+                return None;
+            }
+            let pick: &Elem = *rng.pick(&bad);
+            children.push(sample_value(rng, pick));
+            return Some(Item::Full(e.id, children));
+        }
     }
     if depth <= 1 {
         match rng.below(4) {
